@@ -241,7 +241,7 @@ func listLenOf(v ssa.Value, name string) (ssa.Value, bool) {
 
 var ruleEntry = &Rule{
 	Name: "R-ENTRY", NeedSSA: true,
-	Doc: "Query, First and Match obtain their list from one and the same internal call with the same arguments and differ only in post-processing (First: element 0 or nil; Match: sole boolean / NULL / single-boolean error gated by verbose); Exists runs the same evaluation with a nil collector; both adapters evaluate the root of the path against the given value; ExistsOrMatch dispatches on IsPredicate; a nil collector is only ever passed where strict mode re-collects or strictness is known false",
+	Doc: "Query, First and Match obtain their list from one and the same internal call with the same arguments and differ only in post-processing (First: element 0 or nil; Match: sole boolean / NULL / single-boolean error gated by verbose); Exists runs the same evaluation with a nil collector; both adapters evaluate the root of the path against the given value; ExistsOrMatch dispatches on IsPredicate; a nil collector is only ever passed where strict mode re-collects or strictness is known false; the two adapters write the same fields of the Executor before the core runs (directly or in a helper they share)",
 	Run: func(p *Prog) *RuleOut {
 		out := newOut("R-ENTRY")
 		fns := map[string]*ssa.Function{}
